@@ -115,7 +115,21 @@ pub fn install_hook(path: &str, torn_seed: u64, sample_permille: u64) -> Arc<Mut
 
 pub struct Out {
     pub cases: Vec<String>, pub imp: Vec<String>, pub oracle: Vec<String>,
-    pub stats: BTreeMap<String, u64>, pub samples: Vec<String>, pub nontrivial: u64, pub programs: u64, pub snapshots: u64,
+    pub stats: BTreeMap<String, u64>, pub samples: Vec<String>, pub nontrivial: u64, pub programs: u64, pub snapshots: u64, pub damaged: u64,
+}
+
+// the complete records of a log: (offset, position, size)
+fn parse_log(w: &[u8]) -> Vec<(usize, u64, u64)> {
+    let mut v = vec![];
+    let mut o = 0usize;
+    while o + 16 <= w.len() {
+        let p = u64::from_le_bytes(w[o..o + 8].try_into().unwrap());
+        let z = u64::from_le_bytes(w[o + 8..o + 16].try_into().unwrap());
+        if z > (w.len() - o - 16) as u64 { break; }
+        v.push((o, p, z));
+        o += 16 + z as usize;
+    }
+    v
 }
 
 fn bump(o: &mut Out, k: &str) { *o.stats.entry(k.to_string()).or_insert(0) += 1; }
@@ -125,7 +139,7 @@ fn show_sdop(o: &SdOp) -> String {
 }
 
 // one storage-level program on a fresh file
-pub fn run_program(rng: &mut Rng, dir: &str, idx: usize, mapped: bool, max_ops: u64, out: &mut Out) {
+pub fn run_program(rng: &mut Rng, dir: &str, idx: usize, mapped: bool, max_ops: u64, guard: bool, out: &mut Out) {
     let path = format!("{}/w{}.agdb", dir, idx);
     let wal_path = wal_name(&path);
     let _ = std::fs::remove_file(&path);
@@ -236,9 +250,76 @@ pub fn run_program(rng: &mut Rng, dir: &str, idx: usize, mapped: bool, max_ops: 
     let inside: Vec<&Snap> = st.snaps.iter().filter(|sn| sn.call >= 1 && sn.call < mark).collect();
     for _ in 0..16.min(inside.len()) {
         let sn = inside[r2.below(inside.len() as u64) as usize];
-        out.cases.push(format!("wal recover x ({}) {:x} {:x}", opstr, sn.call - 1, sn.torn));
+        // on a tree with the position guard of apply_wal_record the model is the guarded recovery
+        out.cases.push(format!("wal {} x ({}) {:x} {:x}", if guard { "recoverg" } else { "recover" }, opstr, sn.call - 1, sn.torn));
         out.imp.push(hex(&sn.committed));
     }
+    // (4) logs the storage did NOT write: snapshots whose log is damaged in the position fields (moved inside the
+    //     file, to its end, a little beyond it) or gets a garbage record appended / prepended; the outcome of the real
+    //     FileStorage::new (recovered bytes | error) is compared with the model's recovery of these very files
+    //     (`wal open`: recover_g on a guarded tree; on an unguarded tree the model answers `beyond` when a record
+    //     lies beyond the current end, where FileWal.v does not model the sparse extension — C07's OpenFile.v does)
+    let with_log: Vec<&Snap> = st.snaps.iter().filter(|sn| sn.wal.len() >= 16 && sn.data.len() <= 4000).collect();
+    let dp = format!("{}/g{}.agdb", dir, idx);
+    let dw = wal_name(&dp);
+    for _ in 0..6.min(with_log.len()) {
+        let sn = with_log[r2.below(with_log.len() as u64) as usize];
+        let recs = parse_log(&sn.wal);
+        let len = sn.data.len() as u64;
+        let mut wal = sn.wal.clone();
+        let kind = r2.below(6);
+        let near = |r: &mut Rng| match r.below(5) { 0 => len + 1, 1 => len + r.range(1, 16), 2 => len + r.range(1, 300), _ => r.below(len + 40) };
+        let what = match kind {
+            0 | 1 | 2 if !recs.is_empty() => {
+                // overwrite the position of one record
+                let (off, _, _) = recs[r2.below(recs.len() as u64) as usize];
+                let p = if kind == 2 { len } else { near(&mut r2) };
+                wal[off..off + 8].copy_from_slice(&p.to_le_bytes());
+                format!("position-of-record@{}:={}", off, p)
+            }
+            3 => {
+                // a garbage record appended (it is the newest: applied first)
+                let p = near(&mut r2);
+                let z = [0u64, 0, 1, 5][r2.below(4) as usize];
+                let cut = recs.last().map(|(o, _, z)| o + 16 + *z as usize).unwrap_or(0);
+                wal.truncate(cut);
+                wal.extend_from_slice(&p.to_le_bytes()); wal.extend_from_slice(&z.to_le_bytes());
+                for _ in 0..z { wal.push(r2.next() as u8); }
+                format!("appended-record pos={} size={}", p, z)
+            }
+            4 => {
+                // a garbage record in front (the oldest: applied last)
+                let p = near(&mut r2);
+                let z = [0u64, 2][r2.below(2) as usize];
+                let mut w2: Vec<u8> = vec![]; w2.extend_from_slice(&p.to_le_bytes()); w2.extend_from_slice(&z.to_le_bytes());
+                for _ in 0..z { w2.push(r2.next() as u8); }
+                w2.extend_from_slice(&wal); wal = w2;
+                format!("prepended-record pos={} size={}", p, z)
+            }
+            _ => {
+                // the whole log replaced by one 16-byte record
+                let p = near(&mut r2);
+                wal = vec![]; wal.extend_from_slice(&p.to_le_bytes()); wal.extend_from_slice(&0u64.to_le_bytes());
+                format!("single-record pos={}", p)
+            }
+        };
+        std::fs::write(&dp, &sn.data).unwrap();
+        std::fs::write(&dw, &wal).unwrap();
+        let r = std::panic::catch_unwind(|| FileStorage::new(&dp).map(|s| drop(s)));
+        let res = match r {
+            Ok(Ok(())) => hex(&read_file(&dp)),
+            Ok(Err(_)) => "error".to_string(),
+            Err(_) => "panic".to_string(),
+        };
+        if res == "panic" { out.oracle.push(format!("wal-damaged-log-panic {} data_len={} log={} {}", what, len, hex(&wal), desc)); }
+        bump(out, &format!("damaged-log:{}", what.split(|c| c == ' ' || c == '@').next().unwrap()));
+        bump(out, if res == "error" { "damaged-log-outcome:error" } else { "damaged-log-outcome:recovered" });
+        out.damaged += 1;
+        out.cases.push(format!("wal open {} {} {}", if guard { 1 } else { 0 }, hex(&sn.data), hex(&wal)));
+        out.imp.push(res);
+    }
+    let _ = std::fs::remove_file(&dp);
+    let _ = std::fs::remove_file(&dw);
     bump(out, if mapped { "backend:mapped" } else { "backend:file" });
     bump(out, &format!("calls:{}", match st.calls.len() { 0..=20 => "<=20", 21..=100 => "21-100", _ => ">100" }));
     for p in &program { bump(out, &format!("op:{}", p.split(' ').next().unwrap())); }
